@@ -6,6 +6,7 @@ package main
 import (
 	"fmt"
 	"go/ast"
+	"sort"
 	"strconv"
 )
 
@@ -118,7 +119,14 @@ func genNames() {
 	}
 	for _, t := range []struct{ goName, leanName string }{{"scriptBcp47", "otScripts"}, {"langBcp47", "otLangs"}} {
 		m := mapLit("opentype/gtab/locale.go", t.goName)
-		l.p("/-- opentype/gtab/locale.go: `%s`, OpenType tag -> BCP 47 subtag (both as byte codes) -/\ndef %s : List (List Nat × List Nat) := [", t.goName, t.leanName)
+		// a Go map has no order: the entries are emitted in increasing order of the key bytes (Lean
+		// checks the order and relies on it for the linear-time facts about the reverse lookup)
+		sort.SliceStable(m, func(i, j int) bool {
+			a, _ := strconv.Unquote(m[i].k)
+			b, _ := strconv.Unquote(m[j].k)
+			return a < b
+		})
+		l.p("/-- opentype/gtab/locale.go: `%s`, OpenType tag -> BCP 47 subtag (both as byte codes), sorted by tag -/\ndef %s : List (List Nat × List Nat) := [", t.goName, t.leanName)
 		for i, e := range m {
 			if i > 0 {
 				l.p(",")
